@@ -1423,6 +1423,12 @@ class SuccessionDiagram:
             node["expanded"] = True
             return True
 
+        # If the node had any attractor data computed as unexpanded, these are
+        # no longer valid and need to be erased.
+        node["attractor_seeds"] = None
+        node["attractor_candidates"] = None
+        node["attractor_sets"] = None
+
         for m_trap in minimal_traps:
             m_id = self._ensure_node(node_id, m_trap)
             # Also expand the minimal trap space, since we know
@@ -1471,6 +1477,11 @@ class SuccessionDiagram:
 
             if node["expanded"]:
                 continue
+
+            # Attractor data computed for the unexpanded node is no longer valid.
+            node["attractor_seeds"] = None
+            node["attractor_candidates"] = None
+            node["attractor_sets"] = None
 
             skip_edges = 0
             for m_id, m_trap in trap_with_id:
